@@ -43,7 +43,7 @@ FLAGS = ['00', '01', '02', '03', '80', 'a4']
 N_CELLS = len(VARIANTS) * len(TWEAKS) * len(CORR) * len(FLAGS)
 REQUIRED_PROBES = ['corrupt_sa', 'corrupt_R', 'corrupt_T', 'corrupt_X', 'corrupt_m',
                    'sa_bit255', 'edge_scalar_one', 'edge_scalar_Lm1', 'edge_scalar_Lp1',
-                   'edge_scalar_bit255', 'msg_len_0', 'msg_len_512', 'adapter_as_sig',
+                   'edge_scalar_bit255', 'msg_len_0', 'msg_len_512', 'builder_msg_len_0', 'builder_msg_len_512', 'adapter_as_sig',
                    'wrong_scalar_decrypt', 'crash_between_decrypt_and_publish',
                    'splice', 'misroute', 'honest_spend_accepted', 'extract',
                    'check_after_unrelated_derive', 'two_adapters_in_one_execution',
@@ -126,8 +126,14 @@ def gen_exchange(rng, cell):
         ex['m'] = rng.bytes(rng.choice([0, 1, 11, 32, 64, 255, 256, 512, rng.below(513)])).hex()
     else:
         sf = {}
+        # messages of 0..512 bytes: empty fields (alone: the 0-byte message; or next to
+        # others) and one long field are part of the range
+        shape = rng.below(8)
         for k in rng.sample(range(1, 9), rng.rng(1, 3)):
-            sf['sigfield%d' % k] = rng.bytes(rng.choice([1, 8, 32, 170])).hex()
+            size = 0 if shape == 0 else rng.choice([0, 1, 8, 32, 170])
+            sf['sigfield%d' % k] = rng.bytes(size).hex()
+        if shape == 1:
+            sf = {'sigfield%d' % rng.rng(1, 8): rng.bytes(rng.choice([511, 512])).hex()}
         ex['sigfields'] = sf
     return ex
 
@@ -419,6 +425,12 @@ def execute(plan, run):
                 run.probe('msg_len_0')
             if len(e.m) == 512:
                 run.probe('msg_len_512')
+        else:
+            sizes = [len(v) // 2 for v in e.spec['sigfields'].values()]
+            if not any(sizes):
+                run.probe('builder_msg_len_0')
+            if max(sizes) >= 511:
+                run.probe('builder_msg_len_512')
     for i, st in enumerate(plan['steps']):
         e = exs.get(st['ex'])
         if e is None:
